@@ -23,6 +23,10 @@ R41i executing a `Macro:` line defines the macro every time: every path through 
 R41j where a macro was defined is not where it runs: the ended-block test the interpreter applies to every body line
      (_is_in_ended_block) stops its walk up the AST at the enclosing MacroNode - the blocks around the definition may have ended
      long ago while the body is running for a caller elsewhere; the caller's own blocks are on the execution path.
+R41k "has started" is never forgotten: `run_started_count > 0` is what protects a macro from edits (R41c) and the counters are what
+     tells a call in progress (R02e), so `run_started_count` / `run_completed_count` only ever grow: outside MacroNode.__init__ and
+     apply_state (which restores them from the carried state) every write is `+= 1`, and `active_call_id` is assigned a call
+     node's id only. A reset "because a definition starts out without calls" makes a macro that has run look never-called.
 R41f a call that had to wait runs the definition that is current when it starts: in visit_CallMacroNode the look-up of the macro
      by name is re-done after every tick the call waited (the look-up is inside the waiting loop, or follows it).
 R41g every definition that has started is protected from edits, not only the latest of each name: the started-macro loop of
@@ -291,6 +295,37 @@ def run(ctx) -> None:
             ctx.fail("R41j", eb, x.iter, inst, "an ended Block around the *definition* of a macro counts as an ended block around its body lines: "
                      "once that Block has ended every later call of the macro skips all its lines, is recorded as started and completed, "
                      "and no error is raised")
+
+    # ---- R41k
+    ctx.rule("R41k", "the call counters of a macro only grow")
+    n_w = 0
+    mcls = prog.cls("openpectus.lang.model.ast:MacroNode")
+    for fn in prog.iter_functions():
+        if fn.module.is_test:
+            continue
+        for st in ast.walk(fn.node):
+            tgt = val = None
+            if isinstance(st, ast.Assign) and len(st.targets) == 1:
+                tgt, val = st.targets[0], st.value
+            elif isinstance(st, ast.AugAssign):
+                tgt, val = st.target, st
+            elif isinstance(st, ast.AnnAssign) and st.value is not None:
+                tgt, val = st.target, st.value
+            if not (isinstance(tgt, ast.Attribute) and tgt.attr in ("run_started_count", "run_completed_count", "active_call_id")):
+                continue
+            n_w += 1
+            inst = f"{fn.short}: {norm(st)[:70]}"
+            ctor = fn.cls is not None and (fn.cls is mcls or fn.cls.is_subclass_of(mcls)) and fn.name in ("__init__", "apply_state")
+            grows = isinstance(st, ast.AugAssign) and isinstance(st.op, ast.Add) and isinstance(st.value, ast.Constant) and st.value.value == 1
+            owner = tgt.attr == "active_call_id" and isinstance(val, ast.Attribute) and val.attr == "id" and fn.name == "visit_CallMacroNode"
+            if ctor or (tgt.attr != "active_call_id" and grows) or owner:
+                ctx.ok("R41k", inst)
+            else:
+                ctx.fail("R41k", fn, st, inst, f"`{norm(st)[:60]}` takes evidence away that the macro has started (or that a call is in progress): "
+                         "_validate_liveedit_method protects a macro while run_started_count > 0, so after this write a live edit may change "
+                         "or remove the body of a macro that has already run; callers waiting on the counters no longer see the call in progress")
+    if n_w < 8:
+        raise AnchorError(f"only {n_w} writes of the macro call counters found (floor 8)")
 
     # ---- R41d / R41e
     ctx.rule("R41d", "the recursion search follows every Call macro line")
